@@ -38,6 +38,15 @@ int vnacal_delete_parameter(vnacal_t *vcp, int parameter)
 {
     vnacal_parameter_t *vpmrp;
 
+    if (vcp == NULL || vcp->vc_magic != VC_MAGIC) {
+	errno = EINVAL;
+	return -1;
+    }
+    if (parameter < 0) {
+	_vnacal_error(vcp, VNAERR_USAGE, "vnacal_delete_parameter: "
+		"%d: nonexistent parameter", parameter);
+	return -1;
+    }
     if (parameter < VNACAL_PREDEFINED_PARAMETERS) {
 	return 0;
     }
